@@ -120,6 +120,71 @@ def guarded_check(solver, budget_ms, *extra):
         timer.cancel()
 
 
+def forked_fresh_check(ctx, neg, budget_ms):
+    """a fresh (non-incremental) z3 run in a FORKED child, killed when it overruns: z3 5.1 sometimes ignores
+    both its timeout and interrupt() inside sequence/arithmetic preprocessing, and a check that never
+    returns would take the whole proof task with it.  -> ('unsat'|'sat'|'unknown', model dict or None)"""
+    import pickle
+    import select
+    import signal
+    r, w = os.pipe()
+    pid = os.fork()
+    if pid == 0:
+        try:
+            os.close(r)
+            s1 = z3.Solver()
+            s1.set("timeout", int(budget_ms))
+            for c in ctx.pc:
+                s1.add(c)
+            s1.add(neg)
+            res = s1.check()
+            out = ("unknown", None)
+            if res == z3.unsat:
+                out = ("unsat", None)
+            elif res == z3.sat:
+                out = ("sat", extract_model(ctx, s1.model()))
+            data = pickle.dumps(out)
+            os.write(w, len(data).to_bytes(8, "big") + data)
+        except BaseException:  # noqa
+            pass
+        finally:
+            os._exit(0)
+    os.close(w)
+    out = ("unknown", None)
+    deadline = time.time() + budget_ms / 1000.0 * 1.5 + 2.0
+    buf = b""
+    try:
+        while True:
+            left = deadline - time.time()
+            if left <= 0:
+                break
+            ready, _, _ = select.select([r], [], [], left)
+            if not ready:
+                break
+            chunk = os.read(r, 1 << 20)
+            if not chunk:
+                break
+            buf += chunk
+            if len(buf) >= 8 and len(buf) >= 8 + int.from_bytes(buf[:8], "big"):
+                break
+        if len(buf) >= 8 and len(buf) >= 8 + int.from_bytes(buf[:8], "big"):
+            try:
+                out = pickle.loads(buf[8:8 + int.from_bytes(buf[:8], "big")])
+            except Exception:  # noqa
+                out = ("unknown", None)
+    finally:
+        os.close(r)
+        try:
+            os.kill(pid, signal.SIGKILL)
+        except OSError:
+            pass
+        try:
+            os.waitpid(pid, 0)
+        except OSError:
+            pass
+    return out
+
+
 def discharge(ctx, name, goal, info=None):
     from .engine import Oblig
     eng = ctx.eng
@@ -130,7 +195,8 @@ def discharge(ctx, name, goal, info=None):
     neg = z3.Not(goal)
     stringy = _has_strings(ctx.pc, goal)
     # the incremental context rarely decides sequence-heavy VCs: give it a short try only
-    quick_ms = 300 if stringy else min(eng.vc_timeout_ms, 1500)
+    ts = getattr(eng, "time_scale", 1.0)
+    quick_ms = int(300 * ts) if stringy else min(eng.vc_timeout_ms, int(1500 * ts))
     s = ctx.solver
     s.push()
     s.set("timeout", quick_ms)
@@ -150,19 +216,14 @@ def discharge(ctx, name, goal, info=None):
     size = 0
     if status == "unknown":
         # a fresh (non-incremental) z3 picks a tactic for the logic actually used
-        s1 = z3.Solver()
-        s1.set("timeout", min(eng.vc_timeout_ms, 5000))
-        for c in ctx.pc:
-            s1.add(c)
-        s1.add(neg)
-        r1 = guarded_check(s1, min(eng.vc_timeout_ms, 5000))
-        if r1 == z3.unsat:
+        r1, m1 = forked_fresh_check(ctx, neg, min(eng.vc_timeout_ms, int(5000 * ts)))
+        if r1 == "unsat":
             status = "valid"
             backend = "z3-fresh"
-        elif r1 == z3.sat:
+        elif r1 == "sat":
             status = "refuted"
             backend = "z3-fresh"
-            model = extract_model(ctx, s1.model())
+            model = m1
     if status == "unknown":
         # cvc5 next (it decides most string/sequence queries z3 leaves open), then a long z3 run
         smt2 = smt2_for(ctx.pc, neg)
@@ -172,19 +233,14 @@ def discharge(ctx, name, goal, info=None):
             status = "valid"
             backend = "cvc5"
         else:
-            s2 = z3.Solver()
-            s2.set("timeout", eng.vc_timeout_ms)
-            for c in ctx.pc:
-                s2.add(c)
-            s2.add(neg)
-            r2 = guarded_check(s2, eng.vc_timeout_ms)
-            if r2 == z3.unsat:
+            r2, m2 = forked_fresh_check(ctx, neg, eng.vc_timeout_ms)
+            if r2 == "unsat":
                 status = "valid"
                 backend = "z3-fresh"
-            elif r2 == z3.sat:
+            elif r2 == "sat":
                 status = "refuted"
                 backend = "z3-fresh"
-                model = extract_model(ctx, s2.model())
+                model = m2
             elif res == "sat":
                 status = "refuted"      # cvc5 counterexample, no model through this path
                 backend = "cvc5"
